@@ -16,9 +16,10 @@ let () =
     | _ -> Diff "malformed line");
   (* C03N: a close body handed out earlier and then modified by its owner must not change the next one *)
   register "C03N" (fun i o -> match i, o with
-    | [code; rl], [pc; pr; blen] ->
+    | [code; rl], (pc :: pr :: blen :: rest) ->
       let rl = int_of_string rl in
-      if pc <> code then Viol (Printf.sprintf "NewCloseFrameBody(%s) built after an earlier body of the same code was modified by its owner parses back to code %s" code pc)
+      if rest = ["0"] then Viol (Printf.sprintf "building another close body for code %s changed a body handed out earlier (two results share memory)" code)
+      else if pc <> code then Viol (Printf.sprintf "NewCloseFrameBody(%s) built after an earlier body of the same code was modified by its owner parses back to code %s" code pc)
       else if List.length (bytes_of_hex pr) <> rl || int_of_string blen <> 2 + rl then Viol "close body built after an earlier one was modified: wrong reason / size"
       else Pass true
     | _ -> Diff "malformed line")
